@@ -1061,6 +1061,9 @@ func (u *Unit) applyCallee(st *State, e *ast.CallExpr, callee *types.Func, ca ca
 			return u.applyContract(st, e, callee, ct, cset, ca)
 		}
 	}
+	if sub, key := u.fncallFor(e); sub != nil {
+		return u.applyFnCall(st, e, sig, sub, key, ca)
+	}
 	if r, ok := u.libModel(st, e, callee, ca); ok {
 		return r
 	}
@@ -1082,6 +1085,97 @@ func (u *Unit) applyCallee(st *State, e *ast.CallExpr, callee *types.Func, ca ca
 	return resultTerm(u.freshResults(st, sig, "ret"))
 }
 
+// fncallFor: the `fncall <expr> ...` sub-contract of the unit's contract that matches the callee expression of e, if any.
+func (u *Unit) fncallFor(e *ast.CallExpr) (*FuncContract, string) {
+	if u.ct == nil || u.ct.FnCalls == nil {
+		return nil, ""
+	}
+	key := strings.Join(strings.Fields(u.exprText(e.Fun)), "")
+	// site-specific block `fncall <expr>#k ...`: the k-th call site (source order, 0-based) with that callee text
+	site := -1
+	if u.decl != nil {
+		k := 0
+		ast.Inspect(u.decl.Body, func(n ast.Node) bool {
+			if c, ok := n.(*ast.CallExpr); ok && site < 0 {
+				if c == e {
+					site = k
+				} else if strings.Join(strings.Fields(u.exprText(c.Fun)), "") == key {
+					k++
+				}
+			}
+			return site < 0
+		})
+	}
+	gen := u.ct.FnCalls[key]
+	var spec *FuncContract
+	skey := key
+	if site >= 0 {
+		skey = fmt.Sprintf("%s#%d", key, site)
+		spec = u.ct.FnCalls[skey]
+	}
+	switch {
+	case gen != nil && spec != nil:
+		m := &FuncContract{Key: skey, Mode: gen.Mode, Loops: map[int]*LoopContract{}, FnPure: map[string]bool{}}
+		m.Requires = append(append([]Clause{}, gen.Requires...), spec.Requires...)
+		m.Ensures = append(append([]Clause{}, gen.Ensures...), spec.Ensures...)
+		m.Modifies = append(append([]Clause{}, gen.Modifies...), spec.Modifies...)
+		return m, skey
+	case spec != nil:
+		return spec, skey
+	case gen != nil:
+		if site >= 0 {
+			return gen, skey
+		}
+		return gen, key
+	}
+	return nil, ""
+}
+
+// applyFnCall applies an assumed (trusted, listed) contract of a callee that has none of its own: a function value, an
+// external function/method, or an uncontracted repository function of another package. Only the listed modifies targets
+// are havoced; the preconditions are proof obligations at the call site.
+func (u *Unit) applyFnCall(st *State, e *ast.CallExpr, sig *types.Signature, sub *FuncContract, key string, ca callArgs) Term {
+	names := map[string]Term{}
+	for i := 0; i < sig.Params().Len() && i < len(ca.args); i++ {
+		if n := sig.Params().At(i).Name(); n != "" && n != "_" {
+			a := ca.args[i]
+			a.T = sig.Params().At(i).Type()
+			names[n] = a
+		}
+		names[fmt.Sprintf("arg%d", i)] = ca.args[i]
+	}
+	if ca.recv != nil {
+		names["recv"] = *ca.recv
+	}
+	pre := st.clone()
+	env := &SpecEnv{u: u, st: st, old: pre, names: names, cs: u.cs, pkg: u.pkg.Types, own: true, scopePos: e.Pos(), loopInv: true}
+	for i, r := range sub.Requires {
+		g := env.evalBool(r.Expr)
+		u.emit(st, "pre", fmt.Sprintf("pre(fncall %s)#%d", key, i), "precondition of function value "+key+": "+r.Text, e.Pos(), g)
+		st.assume(g)
+	}
+	u.bumpAlloc(st)
+	for _, m := range sub.Modifies {
+		u.havocTarget(st, env, m)
+	}
+	rs := u.freshResults(st, sig, "fv")
+	for i := 0; i < sig.Results().Len(); i++ {
+		if n := sig.Results().At(i).Name(); n != "" && n != "_" {
+			names[n] = rs[i]
+		}
+		names[fmt.Sprintf("result%d", i)] = rs[i]
+		if i == 0 {
+			names["result"] = rs[i]
+		}
+	}
+	env2 := &SpecEnv{u: u, st: st, old: pre, names: names, cs: u.cs, pkg: u.pkg.Types, own: true, scopePos: e.Pos(), loopInv: true}
+	for _, en := range sub.Ensures {
+		st.assume(env2.evalBool(en.Expr))
+	}
+	u.c.note("call %s uses the assumed fncall contract (trusted boundary)", key)
+	return resultTerm(rs)
+}
+
 func (u *Unit) callDynamic(st *State, e *ast.CallExpr) Term {
 	ft := u.typeOf(e.Fun)
 	sig, ok := ft.Underlying().(*types.Signature)
@@ -1097,43 +1191,8 @@ func (u *Unit) callDynamic(st *State, e *ast.CallExpr) Term {
 		}
 	}()
 	// assumed contract of this function value (fncall directive of the unit's contract)
-	if u.ct != nil && u.ct.FnCalls != nil {
-		key := strings.Join(strings.Fields(u.exprText(e.Fun)), "")
-		if sub, ok := u.ct.FnCalls[key]; ok {
-			names := map[string]Term{}
-			for i := 0; i < sig.Params().Len() && i < len(ca.args); i++ {
-				if n := sig.Params().At(i).Name(); n != "" && n != "_" {
-					a := ca.args[i]
-					a.T = sig.Params().At(i).Type()
-					names[n] = a
-				}
-				names[fmt.Sprintf("arg%d", i)] = ca.args[i]
-			}
-			pre := st.clone()
-			env := &SpecEnv{u: u, st: st, old: pre, names: names, cs: u.cs, pkg: u.pkg.Types, own: true, scopePos: e.Pos(), loopInv: true}
-			for i, r := range sub.Requires {
-				g := env.evalBool(r.Expr)
-				u.emit(st, "pre", fmt.Sprintf("pre(fncall %s)#%d", key, i), "precondition of function value "+key+": "+r.Text, e.Pos(), g)
-				st.assume(g)
-			}
-			u.bumpAlloc(st)
-			for _, m := range sub.Modifies {
-				u.havocTarget(st, env, m)
-			}
-			rs := u.freshResults(st, sig, "fv")
-			for i := 0; i < sig.Results().Len(); i++ {
-				if n := sig.Results().At(i).Name(); n != "" && n != "_" {
-					names[n] = rs[i]
-				}
-				names[fmt.Sprintf("result%d", i)] = rs[i]
-			}
-			env2 := &SpecEnv{u: u, st: st, old: pre, names: names, cs: u.cs, pkg: u.pkg.Types, own: true, scopePos: e.Pos(), loopInv: true}
-			for _, en := range sub.Ensures {
-				st.assume(env2.evalBool(en.Expr))
-			}
-			u.c.note("call through %s uses the assumed fncall contract (trusted boundary)", key)
-			return resultTerm(rs)
-		}
+	if sub, key := u.fncallFor(e); sub != nil {
+		return u.applyFnCall(st, e, sig, sub, key, ca)
 	}
 	// function-typed parameter declared pure: results are functions of (f, args)
 	if id, ok := ast.Unparen(e.Fun).(*ast.Ident); ok && u.ct != nil && u.ct.FnPure[id.Name] {
@@ -1142,6 +1201,11 @@ func (u *Unit) callDynamic(st *State, e *ast.CallExpr) Term {
 			rs = append(rs, u.pureApply(st, f, ca.args, i, sig.Results().At(i).Type()))
 		}
 		return resultTerm(rs)
+	}
+	for _, g := range sortedKeys(st.ghost) {
+		if strings.HasPrefix(g, "held:") && st.ghost[g] != "0" {
+			u.emit(st, "lock", u.safetyName("lock-call-dyn", strings.TrimPrefix(g, "held:")+"@"+u.exprTextShort(e.Fun)), "no call through an unknown function value while "+strings.TrimPrefix(g, "held:")+" is held (it could re-acquire the lock)", e.Pos(), eq(st.ghost[g], "0"))
+		}
 	}
 	u.unsupportedf(e.Pos(), "call through function value %s: heaps havoced, results arbitrary", u.exprText(e.Fun))
 	u.havocAllHeaps(st)
@@ -1169,6 +1233,81 @@ func (u *Unit) pureApply(st *State, f Term, args []Term, i int, rt types.Type) T
 }
 
 // applyContract uses the callee's contract at a call site.
+// spawnContracted handles `go f(args)` for a repository function f with a (non-inline) contract: f's preconditions are
+// checked at the spawn, its modifies targets are havoced now and again at every later synchronisation point (resync);
+// its postconditions are not used. Returns false when the callee has no usable contract.
+func (u *Unit) spawnContracted(st *State, e *ast.CallExpr) bool {
+	callee, recvExpr := u.staticCallee(e)
+	if callee == nil || callee.Pkg() == nil || !u.eng.isRepoPkg(callee.Pkg().Path()) {
+		return false
+	}
+	cset := u.eng.contractsOf(callee.Pkg().Path())
+	ct := cset.Funcs[calleeKey(callee)]
+	if ct == nil || ct.ModifiesAll || ct.NoFrame {
+		return false
+	}
+	sig := callee.Type().(*types.Signature)
+	ca, _ := u.evalArgs(st, e, sig, recvExpr, callee)
+	names := map[string]Term{}
+	if sig.Recv() != nil && ca.recv != nil {
+		if n := sig.Recv().Name(); n != "" && n != "_" {
+			r := *ca.recv
+			r.T = sig.Recv().Type()
+			names[n] = r
+		}
+	}
+	for i := 0; i < sig.Params().Len() && i < len(ca.args); i++ {
+		p := sig.Params().At(i)
+		if p.Name() != "" && p.Name() != "_" {
+			a := ca.args[i]
+			a.T = p.Type()
+			names[p.Name()] = a
+		}
+	}
+	pre := st.clone()
+	env := &SpecEnv{u: u, st: st, old: pre, names: names, cs: cset, pkg: callee.Pkg(), calleeSig: sig}
+	for i, r := range ct.Requires {
+		if strings.Contains(r.Text, "held(") {
+			continue // the new goroutine holds no lock; lock-state preconditions speak about the spawner
+		}
+		g := env.evalBool(r.Expr)
+		u.emit(st, "pre", fmt.Sprintf("pre(go %s)#%d[%s]", calleeKey(callee), i, u.exprTextShort(e)), "precondition of spawned "+calleeKey(callee)+": "+r.Text, e.Pos(), g)
+	}
+	havoc := func(s2 *State) {
+		u.bumpAlloc(s2)
+		env2 := &SpecEnv{u: u, st: s2, old: pre, names: names, cs: cset, pkg: callee.Pkg(), calleeSig: sig}
+		for _, m := range ct.Modifies {
+			u.havocTarget(s2, env2, m)
+		}
+	}
+	havoc(st)
+	u.spawned = append(u.spawned, havoc)
+	u.calledContracts[calleeKey(callee)] = true
+	u.c.note("go %s: spawned with its contract (modifies targets havoced here and at every later synchronisation point; data-race freedom assumed)", calleeKey(callee))
+	return true
+}
+
+// splitConj: the top-level conjuncts of a contract expression.
+func splitConj(e ast.Expr) []ast.Expr {
+	if b, ok := ast.Unparen(e).(*ast.BinaryExpr); ok && b.Op == token.LAND {
+		return append(splitConj(b.X), splitConj(b.Y)...)
+	}
+	return []ast.Expr{e}
+}
+
+func mentionsHeldCall(e ast.Expr) bool {
+	found := false
+	ast.Inspect(e, func(n ast.Node) bool {
+		if c, ok := n.(*ast.CallExpr); ok {
+			if id, ok := c.Fun.(*ast.Ident); ok && id.Name == "held" {
+				found = true
+			}
+		}
+		return !found
+	})
+	return found
+}
+
 func (u *Unit) applyContract(st *State, e *ast.CallExpr, callee *types.Func, ct *FuncContract, cset *ContractSet, ca callArgs) Term {
 	sig := callee.Type().(*types.Signature)
 	names := map[string]Term{}
@@ -1190,6 +1329,28 @@ func (u *Unit) applyContract(st *State, e *ast.CallExpr, callee *types.Func, ct 
 	pre := st.clone()
 	env := &SpecEnv{u: u, st: st, old: pre, names: names, cs: cset, pkg: callee.Pkg(), calleeSig: sig}
 	for i, r := range ct.Requires {
+		if strings.Contains(r.Text, "held(") {
+			// lock-state conjuncts (callee acquires the lock itself / needs it held) are lock obligations; the rest stays `pre`
+			var lockParts, rest []string
+			for _, cj := range splitConj(r.Expr) {
+				if mentionsHeldCall(cj) {
+					lockParts = append(lockParts, env.evalBool(cj))
+				} else {
+					rest = append(rest, env.evalBool(cj))
+				}
+			}
+			if len(lockParts) > 0 {
+				gl := and(lockParts...)
+				u.emit(st, "lock", fmt.Sprintf("pre(%s)#%d.lock[%s]", calleeKey(callee), i, u.exprTextShort(e)), "lock-state precondition of "+calleeKey(callee)+": "+r.Text, e.Pos(), gl)
+				st.assume(gl)
+			}
+			if len(rest) > 0 {
+				gr := and(rest...)
+				u.emit(st, "pre", fmt.Sprintf("pre(%s)#%d[%s]", calleeKey(callee), i, u.exprTextShort(e)), "precondition of "+calleeKey(callee)+": "+r.Text, e.Pos(), gr)
+				st.assume(gr)
+			}
+			continue
+		}
 		g := env.evalBool(r.Expr)
 		u.emit(st, "pre", fmt.Sprintf("pre(%s)#%d[%s]", calleeKey(callee), i, u.exprTextShort(e)), "precondition of "+calleeKey(callee)+": "+r.Text, e.Pos(), g)
 		st.assume(g)
@@ -1377,25 +1538,41 @@ func typeWideModifies(m Clause) (ast.Expr, bool) {
 	return nil, false
 }
 
-// typeWideSlice: the slice type named by the argument of allof(): a slice type literal ([]uint64) or a slice-typed expression.
-func (u *Unit) typeWideSlice(env *SpecEnv, arg ast.Expr) *types.Slice {
+// typeWideHeap: the heap named by the argument of allof(): the element heap of a slice type literal ([]uint64) or of a
+// slice-typed expression, or the cell heap of a pointer type literal (*flushBuffer) / pointer-typed expression.
+func (u *Unit) typeWideHeap(env *SpecEnv, arg ast.Expr) string {
 	var t types.Type
-	if at, isType := ast.Unparen(arg).(*ast.ArrayType); isType && at.Len == nil {
-		_, t = env.specSort(u.exprText(arg))
-	} else if v := env.eval(arg); v.T != nil {
-		t = v.T
+	switch x := ast.Unparen(arg).(type) {
+	case *ast.ArrayType:
+		if x.Len == nil {
+			_, t = env.specSort(u.exprText(arg))
+		}
+	case *ast.StarExpr:
+		if _, et := env.specSort(u.exprText(x.X)); et != nil {
+			t = types.NewPointer(et)
+		}
 	}
 	if t == nil {
-		return nil
+		if v := env.eval(arg); v.T != nil {
+			t = v.T
+		}
 	}
-	sl, _ := t.Underlying().(*types.Slice)
-	return sl
+	if t == nil {
+		return ""
+	}
+	switch ut := t.Underlying().(type) {
+	case *types.Slice:
+		return u.elemHeap(ut.Elem())
+	case *types.Pointer:
+		return u.cellHeapName(ut.Elem())
+	}
+	return ""
 }
 
 func (u *Unit) havocTarget(st *State, env *SpecEnv, m Clause) {
 	if arg, ok := typeWideModifies(m); ok {
-		if sl := u.typeWideSlice(env, arg); sl != nil {
-			u.havocHeap(st, u.elemHeap(sl.Elem()))
+		if h := u.typeWideHeap(env, arg); h != "" {
+			u.havocHeap(st, h)
 			return
 		}
 		u.c.note("modifies allof(%s): not a slice-typed expression", m.Text)
